@@ -137,6 +137,11 @@ func genProfile(r *rand.Rand) *profile.Profile {
 	if r.Intn(4) == 0 {
 		p.Mapping = append(p.Mapping, &profile.Mapping{ID: 77, Start: 0x9000, Limit: 0xa000}) // fake / dangling mapping
 	}
+	if r.Intn(5) == 0 {
+		// a mapping without any address range but with a file name (what a converter, or pprof's own
+		// stand-in mapping together with a binary named on the command line, produces)
+		p.Mapping = append(p.Mapping, &profile.Mapping{ID: 55, File: "/bin/zero"})
+	}
 	for _, m := range p.Mapping {
 		m.HasFunctions = r.Intn(2) == 0
 		if r.Intn(3) == 0 {
